@@ -21,9 +21,9 @@ from . import weave as wv
 VERIF = os.path.dirname(os.path.dirname(os.path.abspath(__file__)))
 REPO = os.environ.get('VX_REPO', '/repo')
 CONTRACTS = os.path.join(VERIF, 'contracts')
-WORK = os.path.join(VERIF, 'work')
-EVID = os.path.join(VERIF, 'evidence')
-REPLAY = os.path.join(VERIF, 'replay')
+WORK = os.path.join(VERIF, 'work') if REPO == '/repo' else os.path.join(VERIF, 'work', 'alt_' + hashlib.sha256(REPO.encode()).hexdigest()[:10])
+EVID = os.path.join(VERIF, 'evidence') if REPO == '/repo' else os.path.join(WORK, 'evidence')
+REPLAY = os.path.join(VERIF, 'replay') if REPO == '/repo' else os.path.join(WORK, 'replay')
 
 
 def load_json(p):
